@@ -252,7 +252,7 @@ def run(tier, seed, replay):
         # pseudo inverse: defining relations with Q = 1 - |rho>><<1|
         for fmt, method, w, kw in (("dense", "direct", None, {}), ("csr", "splu", None, {}), ("csr", "splu", 0.5, {}), ("dense", "solve", 0.3, {}), ("csr", "spsolve", 0.7, {}),
                                    ("dense", "pinv", None, {}), ("csr", "splu", 0.5, {"use_rcm": True}), ("csr", "pinv", None, {"use_rcm": True}), ("dense", "splu", 0.4, {"use_rcm": True}),
-                                   ("csr", "scipy", None, {"use_rcm": True}), ("csr", "direct", 0.6, {"sparse": True, "use_rcm": True}), ("dia", "splu", 0.3, {}), ("csr", "spilu", 0.5, {})):
+                                   ("csr", "scipy", None, {"use_rcm": True}), ("csr", "direct", 0.6, {"sparse": True, "use_rcm": True}), ("dia", "splu", 0.3, {})):
             Lf = Lq.to(fmt)
             Lbefore = Lf.full().copy()
             try:
